@@ -114,6 +114,8 @@ def _run(profile, header, steps, rnd, nsteps, tier):
     res["nsteps"] = len(executed)
     res["evaluations"] = len(executed)
     res["digest"] = digest.hex()
+    if world is not None and hasattr(world, "xdigest"):
+        res["xdigest"] = world.xdigest.hex()
     res["stats"] = stats.to_dict()
     res["nontrivial_keys"] = sorted(keys)
     return res
